@@ -36,6 +36,7 @@ struct Worker {
     // free exploration only
     enum Phase { P_IDLE, P_REQUESTING, P_PARKED, P_HOLDING, P_RELEASING } phase = P_IDLE;
     long issuedAt = 0, parkedAt = 0;
+    int stepsInLock = 0;
     std::vector<int64_t> program;
     size_t pc = 0;
 };
@@ -249,7 +250,7 @@ struct Run {
         w[t].holdsWrite = w[t].wantWrite;
         // C03 with explicit timestamps: a was observed parked before t's call was issued
         for (size_t a = 0; a < w.size(); ++a) {
-            if ((int) a == t || w[a].phase != Worker::P_PARKED || !parked((int) a) || w[a].parkedAt > w[t].issuedAt) continue;
+            if ((int) a == t || w[a].phase != Worker::P_PARKED || w[a].parkedAt > w[t].issuedAt) continue;
             bool okException = !w[a].wantWrite && !w[t].wantWrite;
             if (okException)
                 for (size_t c = 0; c < w.size(); ++c)
@@ -286,13 +287,19 @@ struct Run {
             w[t].guard = (e & 2) != 0;
             w[t].issuedAt = ++clock;
             w[t].phase = Worker::P_REQUESTING;
+            w[t].stepsInLock = 0;
         } else if (holding(t)) {
             w[t].cmd = C_UNLOCK;
             w[t].phase = Worker::P_RELEASING;
         }
+        if (w[t].phase == Worker::P_REQUESTING) ++w[t].stepsInLock;
         vs::step(v);
         if (holding(t) && w[t].phase != Worker::P_HOLDING) { w[t].phase = Worker::P_HOLDING; freeGranted(t); }
-        else if (parked(t) && w[t].phase == Worker::P_REQUESTING) { w[t].phase = Worker::P_PARKED; w[t].parkedAt = ++clock; freeParked(t); }
+        else if (w[t].phase == Worker::P_REQUESTING && (parked(t) || v->reason == vs::R_CV_ENTRY || w[t].stepsInLock >= 2)) {
+            // the request has looked at the lock (its first critical section is over, or it is about to block in the
+            // condition variable with its queue entry made) and was not granted: from here on it is waiting inside lock*()
+            w[t].phase = Worker::P_PARKED; w[t].parkedAt = ++clock; freeParked(t);
+        }
         else if (atIdle(t)) w[t].phase = Worker::P_IDLE;
     }
     void freeExplore(uint64_t seed) {
